@@ -150,6 +150,9 @@ enum Policy {
     Uniform,
     /// keep running the current worker while it is enabled, switch with probability pct/100
     Sticky(u64),
+    /// uniform, except that a worker parked at yield point `kind` is held back (with probability
+    /// pct/100 per decision) while any other worker can run: opens the window right before that action
+    Delay { kind: u32, pct: u64 },
     /// PCT: fixed random priorities, the running worker's priority is lowered at the change points
     Pct { prio: Vec<i64>, change: Vec<usize> },
 }
@@ -224,6 +227,14 @@ impl Sched {
                 let switch = inner.rng.next() % 100 < *pct;
                 let stay = matches!(inner.last, Some(l) if enabled.contains(&l));
                 if stay && !switch { nonpre } else { let k = inner.rng.below(enabled.len()); enabled[k] }
+            }
+            Policy::Delay { kind, pct } => {
+                let hold = inner.rng.next() % 100 < *pct;
+                let others: Vec<usize> =
+                    enabled.iter().copied().filter(|&w| inner.parked[w] != Some(*kind)).collect();
+                let pool = if hold && !others.is_empty() { &others } else { &enabled };
+                let k = inner.rng.below(pool.len());
+                pool[k]
             }
             Policy::Pct { prio, change } => {
                 let top = *enabled.iter().max_by_key(|&&w| prio[w]).unwrap();
@@ -319,7 +330,8 @@ fn slot_val(s: &Slot) -> Val {
 /// case: (base n forest resp quit_at policy seed aux max_slots)
 ///   forest = ((id isdir (kids..)) ..) ; resp = answers by id (0 Continue 1 Skip 2 Quit) ;
 ///   quit_at = () | (k) ; policy 0: aux = ((decision worker)..) preemptions ; 1: uniform(seed) ;
-///   2: PCT(seed), aux = (depth steps_estimate) ; 3: sticky uniform(seed), aux = (switch percent)
+///   2: PCT(seed), aux = (depth steps_estimate) ; 3: sticky uniform(seed), aux = (switch percent) ;
+///   4: delay(seed), aux = (yield kind, hold percent)
 /// result: (status n forest_as_seen resp_effective slots visits decisions errors)
 ///   status 0 finished, 1 all workers blocked but not finished, 2 slot bound overrun, 3 harness
 ///   problem, 4 walk did not return
@@ -344,6 +356,7 @@ fn run_scheduled(v: &Val) -> Val {
         0 => Policy::Preempt(aux.list().iter().map(|p| (p.fld(0).us(), p.fld(1).us())).collect()),
         1 => Policy::Uniform,
         3 => Policy::Sticky(aux.fld(0).n() as u64),
+        4 => Policy::Delay { kind: aux.fld(0).n() as u32, pct: aux.fld(1).n() as u64 },
         _ => {
             let depth = aux.fld(0).us().max(1);
             let est = aux.fld(1).us().max(1);
